@@ -1424,7 +1424,11 @@ def sink_attribute_targets(fn) -> int:
                 if len(all_stores) != 1:
                     continue
                 inside = {id(x) for k in range(d, idx + 1) for x in ast.walk(blk[k])}
-                if any(isinstance(x, ast.Name) and x.id == L and id(x) not in inside for x in ast.walk(fn)):
+                outside = [x for x in ast.walk(fn) if isinstance(x, ast.Name) and x.id == L and id(x) not in inside]
+                later = {id(x) for k in range(idx + 1, len(blk)) for x in ast.walk(blk[k])}
+                # reads of L after it was published are reads of the attribute, provided the attribute is not re-bound there
+                if outside and not (all(id(x) in later and isinstance(x.ctx, ast.Load) for x in outside) and not any(
+                        isinstance(x, ast.Attribute) and isinstance(x.ctx, (ast.Store, ast.Del)) and dotted(x) == A for k in range(idx + 1, len(blk)) for x in ast.walk(blk[k]))):
                     continue
                 between = blk[d: idx]
                 root = A.split(".")[0]
@@ -1438,8 +1442,14 @@ def sink_attribute_targets(fn) -> int:
                         if isinstance(x, ast.Name) and x.id == root and isinstance(x.ctx, (ast.Store, ast.Del)):
                             touched = True  # the object that gets the attribute is itself (re)bound in between
                 # only straight-line building code in between: nothing that can leave early on purpose (validate-then-publish must stay as it is)
+                def _building(b):
+                    if isinstance(b, (ast.Assign, ast.AugAssign, ast.AnnAssign, ast.Expr)):
+                        return True
+                    # a plain loop that only builds (`for f in TABLE: L[f.__name__] = f`): no way out of it but its end
+                    return isinstance(b, ast.For) and not b.orelse and all(_building(x) for x in b.body)
+
                 for b in between[1:]:
-                    if not isinstance(b, (ast.Assign, ast.AugAssign, ast.AnnAssign, ast.Expr)) or any(isinstance(x, (ast.Raise, ast.Return, ast.Yield, ast.YieldFrom, ast.Await)) for x in ast.walk(b)):
+                    if not _building(b) or any(isinstance(x, (ast.Raise, ast.Return, ast.Yield, ast.YieldFrom, ast.Await, ast.Break, ast.Continue)) for x in ast.walk(b)):
                         touched = True
                 if touched:
                     continue
@@ -1461,6 +1471,8 @@ def sink_attribute_targets(fn) -> int:
                         return n
 
                 for k in range(d, idx):
+                    blk[k] = T().visit(blk[k])
+                for k in range(idx + 1, len(blk)):
                     blk[k] = T().visit(blk[k])
                 del blk[idx]
                 j = 0
